@@ -190,19 +190,22 @@ type nodeRig struct {
 	handler  datatransfer.EventsHandler
 	receiver network.Receiver
 
-	mu         sync.Mutex
-	sendf      []bool
-	trf        []bool
-	vals       []valSpec
-	sent       []sentRec
-	trs        []trRec
-	events     []evRec
-	valcalls   []valRec
-	protects   []pkRec
-	unprots    []pkRec
-	sentSeen   int
-	sentinel   datatransfer.ChannelID
-	registered map[string]bool
+	mu                 sync.Mutex
+	sendf              []bool
+	trf                []bool
+	vals               []valSpec
+	sent               []sentRec
+	trs                []trRec
+	events             []evRec
+	valcalls           []valRec
+	protects           []pkRec
+	unprots            []pkRec
+	sentSeen           int
+	sentinel           datatransfer.ChannelID
+	registered         map[string]bool
+	issued             []uint64
+	inflight           int
+	delayFailingCancel bool
 }
 
 func (r *nodeRig) chidTokOf(c datatransfer.ChannelID) chidTok {
@@ -266,13 +269,19 @@ func (n *netDouble) Unprotect(id peer.ID, tag string) bool {
 func (n *netDouble) SendMessage(ctx context.Context, p peer.ID, m datatransfer.Message) error {
 	r := n.r
 	r.mu.Lock()
+	r.inflight++
+	defer func() {
+		r.mu.Lock()
+		r.inflight--
+		r.mu.Unlock()
+	}()
 	ok := true
 	if len(r.sendf) > 0 {
 		ok, r.sendf = r.sendf[0], r.sendf[1:]
 	}
 	spec := r.specOfMsg(m)
 	r.mu.Unlock()
-	if !ok && spec.Type == 2 { // a failing cancel message (sent asynchronously by CloseDataTransferChannel):
+	if !ok && spec.Type == 2 && r.delayFailingCancel { // a failing cancel message (sent asynchronously by CloseDataTransferChannel):
 		// let the failure surface only after the Cancel event has been processed, to make the order deterministic
 		var chid datatransfer.ChannelID
 		if spec.IsReq {
@@ -710,6 +719,7 @@ func (r *nodeRig) exec(s nStep, openIndex int) nObs {
 	r.mu.Lock()
 	r.sendf, r.trf, r.vals = append([]bool(nil), s.Sendf...), append([]bool(nil), s.Trf...), append([]valSpec(nil), s.Vals...)
 	r.sent, r.trs, r.events, r.valcalls, r.protects, r.unprots = nil, nil, nil, nil, nil, nil
+	r.delayFailingCancel = s.Kind == "close"
 	r.mu.Unlock()
 	ctx := context.Background()
 	var obs nObs
@@ -833,6 +843,27 @@ func (r *nodeRig) exec(s nStep, openIndex int) nObs {
 	r.tids.mu.Lock()
 	r.tids.current = 0
 	r.tids.mu.Unlock()
+	if s.Kind == "close" && obs.Ret == 0 {
+		// CloseDataTransferChannel sends its cancel message from a goroutine: wait for it (and for the
+		// Disconnected event it fires when the send fails) before observing
+		deadline := time.Now().Add(10 * time.Second)
+		for time.Now().Before(deadline) {
+			r.mu.Lock()
+			n := 0
+			for _, m := range r.sent {
+				if m.Msg.Type == mtCancel {
+					n++
+				}
+			}
+			inflight := r.inflight
+			r.mu.Unlock()
+			if n > 0 && inflight == 0 {
+				break
+			}
+			time.Sleep(100 * time.Microsecond)
+		}
+		time.Sleep(2 * time.Millisecond)
+	}
 	if obs.Ret != 98 {
 		r.quiesce()
 	}
@@ -883,7 +914,7 @@ func writeNCases(dir, name string, cases []nCaseOut) {
 }
 
 // runNodeCase executes a list of steps on a fresh node (self token 1)
-func runNodeCase(res *suiteResult, id int, label string, steps []nStep, mon func(r *nodeRig, i int, s nStep, o nObs, before map[chidTok]string)) nCaseOut {
+func runNodeCase(res *suiteResult, id int, label string, steps []nStep, mon func(r *nodeRig, i int, s nStep, o nObs, before, after map[chidTok]chanSnap)) nCaseOut {
 	r := newNodeRig(res, 1)
 	defer func() { _ = r.mgr.Stop(context.Background()) }()
 	out := nCaseOut{id: id, label: label, self: 1}
@@ -911,9 +942,10 @@ func runNodeCase(res *suiteResult, id int, label string, steps []nStep, mon func
 			}
 			break
 		}
-		r.generalMonitors(id, label, i, s, o, before)
+		after := r.snapshot()
+		r.propertyMonitors(id, label, i, s, o, before, after)
 		if mon != nil {
-			mon(r, i, s, o, before)
+			mon(r, i, s, o, before, after)
 		}
 	}
 	var fin []string
@@ -948,51 +980,52 @@ func panicSite(stack string) string {
 	return "?"
 }
 
-// snapshot: views of all channels keyed by token id
-func (r *nodeRig) snapshot() map[chidTok]string {
-	out := map[chidTok]string{}
+// chanSnap: what the monitors need to know about a channel, read through the public accessors
+type chanSnap struct {
+	View     string
+	Status   datatransfer.Status
+	Ident    string // id, peers, base cid, selector, opening voucher
+	Progress string // byte totals and block indexes
+	Vouchers []string
+	Results  []string
+	IPaused  bool
+	RPaused  bool // accessor view (true in Finalizing)
+	SelfP    bool
+	Limit    uint64
+	ReqFin   bool
+	Queued   uint64
+	Received uint64
+	Pull     bool
+	SelfInit bool
+	Other    int
+}
+
+func (r *nodeRig) snapOf(st datatransfer.ChannelState) chanSnap {
+	c := chanSnap{View: r.viewOf(st), Status: st.Status(), IPaused: st.InitiatorPaused(), RPaused: st.ResponderPaused(), SelfP: st.SelfPaused(),
+		Limit: st.DataLimit(), ReqFin: st.RequiresFinalization(), Queued: st.Queued(), Received: st.Received(), Pull: st.IsPull(),
+		SelfInit: st.ChannelID().Initiator == r.self, Other: tokOfPeer(st.OtherPeer())}
+	c.Ident = fmt.Sprint(r.chidTokOf(st.ChannelID()), tokOfPeer(st.SelfPeer()), tokOfPeer(st.OtherPeer()), tokOfPeer(st.Sender()), tokOfPeer(st.Recipient()),
+		st.IsPull(), tokOfCid(st.BaseCID()), tokOfNode(st.Selector()), coqTyped(st.Voucher()), st.TotalSize())
+	c.Progress = fmt.Sprint(st.Queued(), st.Sent(), st.Received(), st.QueuedCidsTotal(), st.SentCidsTotal(), st.ReceivedCidsTotal())
+	for _, v := range st.Vouchers() {
+		c.Vouchers = append(c.Vouchers, coqTyped(v))
+	}
+	for _, v := range st.VoucherResults() {
+		c.Results = append(c.Results, coqTyped(v))
+	}
+	return c
+}
+
+// snapshot of all channels keyed by token id
+func (r *nodeRig) snapshot() map[chidTok]chanSnap {
+	out := map[chidTok]chanSnap{}
 	for _, chid := range r.channelList() {
 		st, err := r.mgr.ChannelState(context.Background(), chid)
 		if err == nil {
-			out[r.chidTokOf(chid)] = r.viewOf(st)
+			out[r.chidTokOf(chid)] = r.snapOf(st)
 		}
 	}
 	return out
-}
-
-func statusOfView(v string) string {
-	// the status is the 10th field of mkView; cheaper: search for known names
-	for _, n := range []string{"Completed", "Failed", "Cancelled"} {
-		if strings.Contains(v, " "+n+" ") {
-			return n
-		}
-	}
-	return ""
-}
-
-// generalMonitors: property statements that apply to every step of every node suite
-func (r *nodeRig) generalMonitors(id int, label string, i int, s nStep, o nObs, before map[chidTok]string) {
-	after := r.snapshot()
-	// C02: a channel that was terminal before the step is unchanged and nothing is announced for it
-	for k, v := range before {
-		if statusOfView(v) == "" {
-			continue
-		}
-		if after[k] != v {
-			r.res.fail(monitorFailure{Property: "C02", CaseID: id, Signature: "terminal-changed-by:" + s.Kind, What: "a terminal channel changed", Input: label + " @step " + fmt.Sprint(i+1) + " " + s.String(), Observed: after[k], Expected: v})
-		}
-		for _, e := range o.Events {
-			if e.K == k {
-				r.res.fail(monitorFailure{Property: "C02", CaseID: id, Signature: "terminal-announced-by:" + s.Kind, What: "an event was announced for a terminal channel", Input: label + " @step " + fmt.Sprint(i+1) + " " + s.String()})
-			}
-		}
-	}
-	// C18/C10: channels never disappear; existing identities never change (identity part of the view is its prefix)
-	for k := range before {
-		if _, ok := after[k]; !ok {
-			r.res.fail(monitorFailure{Property: "C10", CaseID: id, Signature: "channel-vanished:" + s.Kind, What: "a channel disappeared", Input: label})
-		}
-	}
 }
 
 var _ = channels.EmptyChannelState
